@@ -13,6 +13,8 @@ ENGINES = {
     "C01": ("eng_wire", "run"),
     "C02": ("eng_wire", "run"),
     "C15": ("eng_msg", "run"),
+    "C16": ("eng_range", "run"),
+    "C17": ("eng_text", "run"),
 }
 
 
